@@ -87,6 +87,41 @@ type c20Prog struct {
 	tags []string // template, value, chain
 }
 
+// values of named non-struct Go types that carry methods, and what is done with them; these programs
+// are judged on the implementation alone (tag impl-only): the model has no such values
+var c20MethodValues = []struct{ name, lit string }{{"duration", "mkdur()"}, {"urlvalues", "mkvals()"}, {"intslice", "mkints()"}, {"durptr", "mkptr()"}}
+var c20MethodTemplates = []struct{ name, code string }{
+	{"m-String", "r = (%s.String()) ?? \"E\""}, {"m-Get", "r = (%s.Get(\"k\")) ?? \"E\""}, {"m-Len", "r = (%s.Len()) ?? \"E\""},
+	{"m-Seconds", "r = (%s.Seconds()) ?? \"E\""}, {"m-Encode", "r = (%s.Encode()) ?? \"E\""}, {"m-value", "f = %s.String; r = f() ?? \"E\""},
+	{"m-len", "r = len(%s) ?? \"E\""}, {"m-index", "r = (%s[0]) ?? \"E\""}, {"m-key", "r = (%s[\"k\"]) ?? \"E\""}, {"m-member", "r = (%s.k) ?? \"E\""},
+	{"m-forin", "r = []; try { for x in %s { r += x } } catch e { r = \"E\" }"}, {"m-add", "r = (%s + 1) ?? \"E\""}, {"m-tostr", "r = (\"\" + %s) ?? \"E\""},
+	{"m-eq", "r = (%s == v) ?? \"E\""}, {"m-arg", "r = probe(%s)"}, {"m-deref", "r = \"ok\"; try { r = *%s } catch e { r = \"E\" }"},
+}
+
+func c20MethodPrograms(sample *Rand) []c20Prog {
+	var out []c20Prog
+	chains := c20Chains(2)
+	for _, t := range c20MethodTemplates {
+		for _, v := range c20MethodValues {
+			base := "v = " + v.lit + "\n"
+			out = append(out, c20Prog{base + fmt.Sprintf(t.code, "v") + "\nr", []string{t.name, v.name, "var", "impl-only"}})
+			for _, ch := range chains {
+				if len(ch) > 1 && !sample.Chance(15, 100) {
+					continue
+				}
+				x := "v"
+				var names []string
+				for _, h := range ch {
+					x = c20Hops[h].wrap(x)
+					names = append(names, c20Hops[h].name)
+				}
+				out = append(out, c20Prog{base + fmt.Sprintf(t.code, x) + "\nr", []string{t.name, v.name, strings.Join(names, ">"), "impl-only"}})
+			}
+		}
+	}
+	return out
+}
+
 func c20Programs(maxLen int, sample *Rand, limit int) []c20Prog {
 	var out []c20Prog
 	chains := c20Chains(maxLen)
@@ -108,5 +143,6 @@ func c20Programs(maxLen int, sample *Rand, limit int) []c20Prog {
 			}
 		}
 	}
+	out = append(out, c20MethodPrograms(sample)...)
 	return out
 }
